@@ -147,7 +147,9 @@ IndexOf(s, pred(_)) == \* first index satisfying pred, 0 if none
 NotNum == [t |-> "notnum"]
 
 \* numeric text: [sign] digits [. digits] [E [sign] digits]  or  [sign] . digits ...
-\* result: a "num" record, Open (numeric but too large for the model), or NotNum
+\* result: a "num" record, Open (numeric but too large for the model, or text with
+\* digits that is not a plain number: Excel also converts date-, time-, percent-
+\* and currency-looking text, which no property fixes), or NotNum (no digit at all)
 TextToNum(s) ==
     LET neg  == Len(s) > 0 /\ s[1] = CPMinus
         sgn  == Len(s) > 0 /\ (s[1] = CPMinus \/ s[1] = CPPlus)
@@ -163,7 +165,8 @@ TextToNum(s) ==
         fpart == IF di = 0 THEN <<>> ELSE SubSeq(mant, di + 1, Len(mant))
         okm  == AllDigits(ipart) /\ AllDigits(fpart) /\ Len(ipart) + Len(fpart) > 0
         oke  == ei = 0 \/ (AllDigits(edig) /\ Len(edig) > 0)
-    IN IF ~(okm /\ oke) THEN NotNum
+        hasDigit == \E i \in 1..Len(s) : IsDigit(s[i])
+    IN IF ~(okm /\ oke) THEN (IF hasDigit THEN Open ELSE NotNum)   \* "2-2", "1/2", "3 Jan": date-looking text is left open
        ELSE IF Len(ipart) + Len(fpart) > 4 \/ Len(edig) > 1 THEN Open
        ELSE LET m == DigitsToNat(ipart \o fpart)
                 e == (IF eneg THEN -1 ELSE 1) * DigitsToNat(edig) - Len(fpart)
